@@ -2,10 +2,12 @@
 C13 — helper lemmas: finite sums, matrix-vector algebra, the weak-symmetry average.
 -/
 import PorepyVerif.C13.Model
+import PorepyVerif.C11.Lemmas
 import Mathlib.Algebra.Order.Field.Rat
 import Mathlib.Tactic.Ring
 import Mathlib.Tactic.Linarith
 import Mathlib.Tactic.FieldSimp
+import Mathlib.Tactic.LinearCombination
 import Mathlib.Data.Finset.Card
 import Mathlib.Data.List.Nodup
 
@@ -167,5 +169,425 @@ theorem subDisp_affine (R : Region d) (A : Mat d) (b : Vec d) (G : Nat → Mat d
   unfold subDisp affineCells affine
   rw [hG, mulVec_vsub]
   ring
+
+/-! ## `mpsa2d`: local matrix, certificate -/
+
+theorem fin2_cases (i : Fin 2) : i = 0 ∨ i = 1 := by
+  rcases i with ⟨_ | _ | n, h⟩
+  · left; rfl
+  · right; rfl
+  · omega
+
+theorem sumFin_two (f : Fin 2 → Rat) : sumFin 2 f = f 0 + (f 1 + 0) := rfl
+
+theorem Blk.dot_add (x y z : Blk) : Blk.dot (Blk.add x y) z = Blk.dot x z + Blk.dot y z := by
+  unfold Blk.dot Blk.add; ring
+
+theorem Blk.dot_smul (s : Rat) (x z : Blk) : Blk.dot (Blk.smul s x) z = s * Blk.dot x z := by
+  unfold Blk.dot Blk.smul; ring
+
+theorem csymB_dot (lam mu : Rat) (n : Vec 2) (a : Fin 2) (G : Mat 2) :
+    Blk.dot (csymB lam mu n a) (blkOf G) = mulVec (csym lam mu G) n a := by
+  rcases fin2_cases a with rfl | rfl <;>
+    simp [csymB, Blk.dot, blkOf, mulVec, csym, tr, sumFin_two] <;> ring
+
+theorem casymB_dot (mu : Rat) (n : Vec 2) (a : Fin 2) (G : Mat 2) :
+    Blk.dot (casymB mu n a) (blkOf G) = mulVec (casym mu G) n a := by
+  rcases fin2_cases a with rfl | rfl <;>
+    simp [casymB, Blk.dot, blkOf, mulVec, casym, sumFin_two] <;> ring
+
+theorem distB_dot (x : Vec 2) (a : Fin 2) (G : Mat 2) :
+    Blk.dot (distB x a) (blkOf G) = mulVec G x a := by
+  rcases fin2_cases a with rfl | rfl <;>
+    simp [distB, Blk.dot, blkOf, mulVec, sumFin_two] <;> ring
+
+/-! ### `sumTo` -/
+
+theorem sumTo_congr {f g : Nat → Rat} (m : Nat) (h : ∀ k, k < m → f k = g k) :
+    sumTo f m = sumTo g m := by
+  induction m with
+  | zero => rfl
+  | succ m ih =>
+    simp only [sumTo]
+    rw [ih (fun k hk => h k (Nat.lt_succ_of_lt hk)), h m (Nat.lt_succ_self m)]
+
+theorem sumTo_zero (m : Nat) : sumTo (fun _ => 0) m = 0 := by
+  induction m with
+  | zero => rfl
+  | succ m ih => simp only [sumTo]; rw [ih]; ring
+
+theorem sumTo_lin2 (c0 c1 : Rat) (f0 f1 : Nat → Rat) (m : Nat) :
+    sumTo (fun k => c0 * f0 k + c1 * f1 k) m = c0 * sumTo f0 m + c1 * sumTo f1 m := by
+  induction m with
+  | zero => simp [sumTo]
+  | succ m ih => simp only [sumTo]; rw [ih]; ring
+
+theorem sumTo_add (f g : Nat → Rat) (m : Nat) :
+    sumTo (fun k => f k + g k) m = sumTo f m + sumTo g m := by
+  have := sumTo_lin2 1 1 f g m
+  simpa using this
+
+theorem sumTo_ind (f : Nat → Rat) (i m : Nat) (hi : i < m) :
+    sumTo (fun k => ind k i * f k) m = f i := by
+  induction m with
+  | zero => omega
+  | succ m ih =>
+    simp only [sumTo]
+    by_cases h : i = m
+    · subst h
+      rw [sumTo_congr (g := fun _ => 0) i (fun k hk => by simp [ind, Nat.ne_of_lt hk]), sumTo_zero]
+      simp [ind]
+    · rw [ih (by omega)]
+      have : m ≠ i := fun e => h e.symm
+      simp [ind, this]
+
+/-! ### flattening -/
+
+theorem length_flatB (c : Nat → Blk) (m : Nat) : (flatB c m).length = 4 * m := by
+  induction m with
+  | zero => rfl
+  | succ m ih =>
+    unfold flatB at *
+    rw [List.range_succ, List.flatMap_append, List.length_append, ih]
+    simp [Blk.toList]; omega
+
+theorem flatB_succ (c : Nat → Blk) (m : Nat) : flatB c (m + 1) = flatB c m ++ (c m).toList := by
+  unfold flatB
+  rw [List.range_succ, List.flatMap_append]
+  simp
+
+theorem dot_flatB (c g : Nat → Blk) (m : Nat) :
+    C11.dot (flatB c m) (flatB g m) = sumTo (fun k => Blk.dot (c k) (g k)) m := by
+  induction m with
+  | zero => rfl
+  | succ m ih =>
+    rw [flatB_succ, flatB_succ, C11.dot_append _ _ _ _ (by rw [length_flatB, length_flatB]), ih]
+    simp [sumTo, Blk.toList, Blk.dot, C11.dot]
+    ring
+
+theorem getD_append_block (l r : List Rat) (n t : Nat) (hl : l.length = n) :
+    (l ++ r).getD (n + t) 0 = r.getD t 0 := by
+  subst hl
+  simp [List.getD_eq_getElem?_getD, List.getElem?_append_right]
+
+theorem getD_append_left' (l r : List Rat) (i : Nat) (h : i < l.length) :
+    (l ++ r).getD i 0 = l.getD i 0 := by
+  simp [List.getD_eq_getElem?_getD, List.getElem?_append_left h]
+
+theorem getD_flatB (g : Nat → Blk) (m k : Nat) (hk : k < m) :
+    (flatB g m).getD (4 * k) 0 = (g k).a ∧ (flatB g m).getD (4 * k + 1) 0 = (g k).b ∧
+    (flatB g m).getD (4 * k + 2) 0 = (g k).c ∧ (flatB g m).getD (4 * k + 3) 0 = (g k).e := by
+  induction m with
+  | zero => omega
+  | succ m ih =>
+    rw [flatB_succ]
+    by_cases h : k = m
+    · subst h
+      have hl := length_flatB g k
+      have e0 := getD_append_block _ (g k).toList (4 * k) 0 hl
+      have e1 := getD_append_block _ (g k).toList (4 * k) 1 hl
+      have e2 := getD_append_block _ (g k).toList (4 * k) 2 hl
+      have e3 := getD_append_block _ (g k).toList (4 * k) 3 hl
+      refine ⟨?_, ?_, ?_, ?_⟩
+      · simpa [Blk.toList] using e0
+      · simpa [Blk.toList] using e1
+      · simpa [Blk.toList] using e2
+      · simpa [Blk.toList] using e3
+    · have hl := length_flatB g m
+      obtain ⟨h0, h1, h2, h3⟩ := ih (by omega)
+      refine ⟨?_, ?_, ?_, ?_⟩
+      · rw [getD_append_left' _ _ _ (by omega)]; exact h0
+      · rw [getD_append_left' _ _ _ (by omega)]; exact h1
+      · rw [getD_append_left' _ _ _ (by omega)]; exact h2
+      · rw [getD_append_left' _ _ _ (by omega)]; exact h3
+
+theorem unflat_flatB (G : Nat → Mat 2) (m k : Nat) (hk : k < m) :
+    unflat (flatB (fun k => blkOf (G k)) m) k = G k := by
+  obtain ⟨h0, h1, h2, h3⟩ := getD_flatB (fun k => blkOf (G k)) m k hk
+  funext p q
+  unfold unflat
+  rcases fin2_cases p with rfl | rfl <;> rcases fin2_cases q with rfl | rfl
+  · simpa [blkOf] using h0
+  · simpa [blkOf] using h1
+  · simpa [blkOf] using h2
+  · simpa [blkOf] using h3
+
+/-! ### a row of the matrix is the linear part of the residual -/
+
+theorem avg_lin (R : Region 2) (G : Nat → Mat 2) (n : Vec 2) (a : Fin 2) :
+    sumTo (fun k => R.vol k / sumTo R.vol R.m * mulVec (casym R.mu (G k)) n a) R.m
+      = mulVec (avgAsym R G) n a := by
+  have h := sumTo_lin2 (n 0 / sumTo R.vol R.m) (n 1 / sumTo R.vol R.m)
+    (fun k => R.vol k * casym R.mu (G k) a 0) (fun k => R.vol k * casym R.mu (G k) a 1) R.m
+  simp only [mulVec, sumFin_two, avgAsym]
+  rw [sumTo_congr (g := fun k => n 0 / sumTo R.vol R.m * (R.vol k * casym R.mu (G k) a 0)
+      + n 1 / sumTo R.vol R.m * (R.vol k * casym R.mu (G k) a 1)) R.m (fun k _ => by ring), h]
+  ring
+
+theorem row_lin (R : Region 2) (u : Nat → Vec 2) (G : Nat → Mat 2) (r : Row 2)
+    (hidx : r.idxOK R.m) (a : Fin 2) :
+    sumTo (fun k => Blk.dot (r.coefs R a k) (blkOf (G k))) R.m - r.rhsAt u a
+      = r.residual R u G a := by
+  cases r with
+  | tractionCont i j n =>
+    obtain ⟨hi, hj⟩ := hidx
+    simp only [Row.coefs, Row.rhsAt, Row.residual]
+    rw [sumTo_congr (g := fun k => ind k i * mulVec (csym R.lam R.mu (G k)) n a
+        + ind k j * (-(mulVec (csym R.lam R.mu (G k)) n a))) R.m
+      (fun k _ => by rw [Blk.dot_add, Blk.dot_smul, Blk.dot_smul, csymB_dot]; ring),
+      sumTo_add, sumTo_ind _ i _ hi, sumTo_ind _ j _ hj]
+    ring
+  | dispCont i j xs =>
+    obtain ⟨hi, hj⟩ := hidx
+    simp only [Row.coefs, Row.rhsAt, Row.residual, subDisp]
+    rw [sumTo_congr (g := fun k => ind k i * mulVec (G k) (vsub xs (R.xc i)) a
+        + ind k j * (-(mulVec (G k) (vsub xs (R.xc j)) a))) R.m
+      (fun k _ => by rw [Blk.dot_add, Blk.dot_smul, Blk.dot_smul, distB_dot, distB_dot]; ring),
+      sumTo_add, sumTo_ind _ i _ hi, sumTo_ind _ j _ hj]
+    ring
+  | dirichlet i xs uD =>
+    simp only [Row.coefs, Row.rhsAt, Row.residual, subDisp]
+    rw [sumTo_congr (g := fun k => ind k i * mulVec (G k) (vsub xs (R.xc i)) a) R.m
+      (fun k _ => by rw [Blk.dot_smul, distB_dot]), sumTo_ind _ i _ hidx]
+    ring
+  | neumann i n t elim =>
+    simp only [Row.coefs, Row.rhsAt, Row.residual, subTraction]
+    rw [sumTo_congr (g := fun k => ind k i * mulVec (csym R.lam R.mu (G k)) n a
+        + (if elim then 0 else R.vol k / sumTo R.vol R.m) * mulVec (casym R.mu (G k)) n a) R.m
+      (fun k _ => by rw [Blk.dot_add, Blk.dot_smul, Blk.dot_smul, csymB_dot, casymB_dot]),
+      sumTo_add, sumTo_ind _ i _ hidx]
+    have hsplit : mulVec (subStress R G i elim) n a
+        = mulVec (csym R.lam R.mu (G i)) n a
+          + mulVec (fun x y => if elim then 0 else avgAsym R G x y) n a := by
+      rw [← mulVec_add_mat]; rfl
+    rw [hsplit]
+    cases elim with
+    | true =>
+      simp only [if_true]
+      rw [sumTo_congr (g := fun _ => 0) R.m (fun k _ => by ring), sumTo_zero,
+        mulVec_zero_mat (fun _ _ => rfl)]
+    | false =>
+      simp only [Bool.false_eq_true, if_false]
+      rw [avg_lin]
+
+/-! ### matrix form of `Solves`, certificate -/
+
+def RowsOK (R : Region 2) : Prop := ∀ r ∈ R.rows, r.idxOK R.m
+
+theorem mulVec_matrix2_aux (R : Region 2) (u : Nat → Vec 2) (G : Nat → Mat 2) (rows : List (Row 2))
+    (hidx : ∀ r ∈ rows, r.idxOK R.m) (hsol : ∀ r ∈ rows, ∀ a, r.residual R u G a = 0) :
+    C11.mulVec (rows.flatMap (fun r => [flatB (r.coefs R 0) R.m, flatB (r.coefs R 1) R.m]))
+        (flatB (fun k => blkOf (G k)) R.m)
+      = rows.flatMap (fun r => [r.rhsAt u 0, r.rhsAt u 1]) := by
+  induction rows with
+  | nil => rfl
+  | cons r rows ih =>
+    have h0 := row_lin R u G r (hidx r (List.mem_cons_self ..)) 0
+    have h1 := row_lin R u G r (hidx r (List.mem_cons_self ..)) 1
+    rw [hsol r (List.mem_cons_self ..) 0] at h0
+    rw [hsol r (List.mem_cons_self ..) 1] at h1
+    have ih' := ih (fun r hr => hidx r (List.mem_cons_of_mem _ hr))
+      (fun r hr => hsol r (List.mem_cons_of_mem _ hr))
+    simp only [List.flatMap_cons, C11.mulVec, List.map_cons, List.cons_append,
+      List.nil_append] at ih' ⊢
+    rw [dot_flatB, dot_flatB, ih']
+    congr 1
+    · linarith
+    · congr 1; linarith
+
+theorem mulVec_matrix2 (R : Region 2) (u : Nat → Vec 2) (G : Nat → Mat 2) (hidx : RowsOK R)
+    (hsol : Solves R u G) :
+    C11.mulVec R.matrix2 (flatB (fun k => blkOf (G k)) R.m) = R.rhs2 u :=
+  mulVec_matrix2_aux R u G R.rows hidx hsol
+
+/-- A passing certificate and any solution: the solver's output `L · rhs` IS that solution. -/
+theorem cert_solution2 (R : Region 2) (L : C11.Mat) (u : Nat → Vec 2) (G : Nat → Mat 2)
+    (hidx : RowsOK R) (hcert : certOK2 R L = true) (hsol : Solves R u G) (k : Nat) (hk : k < R.m) :
+    unflat (C11.mulVec L (R.rhs2 u)) k = G k := by
+  rw [← mulVec_matrix2 R u G hidx hsol,
+    C11.leftInvOK_apply (4 * R.m) L R.matrix2 hcert _ (length_flatB _ _)]
+  exact unflat_flatB G R.m k hk
+
+/-- A passing certificate discharges the hypothesis `Unisolvent`. -/
+theorem cert_unisolvent (R : Region 2) (L : C11.Mat) (hidx : RowsOK R)
+    (hcert : certOK2 R L = true) : Unisolvent R := by
+  intro u G₁ G₂ h₁ h₂ k hk
+  rw [← cert_solution2 R L u G₁ hidx hcert h₁ k hk, ← cert_solution2 R L u G₂ hidx hcert h₂ k hk]
+
+/-! ## `mpsa2d`: the grid model -/
+
+theorem sumList_const {α : Type} (l : List α) (g : α → Rat) (c : Rat) (h : ∀ x ∈ l, g x = c) :
+    GridS.sumList (l.map g) = (l.length : Rat) * c := by
+  induction l with
+  | nil => simp [GridS.sumList]
+  | cons x l ih =>
+    simp only [List.map_cons, GridS.sumList, List.length_cons]
+    rw [h x (List.mem_cons_self ..), ih (fun y hy => h y (List.mem_cons_of_mem _ hy))]
+    push_cast; ring
+
+namespace GridS
+variable (G : GridS)
+
+theorem mem_facesOf (v f : Nat) : f ∈ G.facesOf v ↔ f < G.numFaces ∧ v ∈ G.fnodes f := by
+  simp [facesOf, List.mem_filter]
+
+theorem mem_cellsOf (v c : Nat) :
+    c ∈ G.cellsOf v ↔ c < G.numCells ∧ ∃ f ∈ G.facesOf v, ∃ s, (c, s) ∈ G.fcells f := by
+  simp [cellsOf, List.mem_filter]
+
+theorem loc_lt (v c : Nat) (h : c ∈ G.cellsOf v) : G.loc v c < (G.cellsOf v).length :=
+  List.idxOf_lt_length_of_mem h
+
+/-- shape of the cell list of a face in a well-formed grid -/
+theorem fcells_cases (hwf : G.WF) (f : Nat) (hf : f < G.numFaces) :
+    (∃ c s, G.fcells f = [(c, s)] ∧ c < G.numCells ∧ s * s = 1) ∨
+    (∃ c1 s1 c2 s2, G.fcells f = [(c1, s1), (c2, s2)] ∧ c1 < G.numCells ∧ c2 < G.numCells) := by
+  obtain ⟨hfc, _, hfcells, _⟩ := hwf
+  have h := hfcells _ (C11.getD_mem' G.faceCells f [] (by rw [hfc]; exact hf))
+  change fcOK G.numCells (G.fcells f) at h
+  rcases hl : G.fcells f with _ | ⟨⟨c, s⟩, _ | ⟨⟨c2, s2⟩, _ | ⟨x, rest⟩⟩⟩
+  · rw [hl] at h; simp [fcOK] at h
+  · rw [hl] at h; left; exact ⟨c, s, rfl, by simpa [fcOK] using h⟩
+  · rw [hl] at h; right
+    have h' : c < G.numCells ∧ c2 < G.numCells ∧ c ≠ c2 := by simpa [fcOK] using h
+    exact ⟨c, s, c2, s2, rfl, h'.1, h'.2.1⟩
+  · rw [hl] at h; simp [fcOK] at h
+
+theorem fnodes_ok (hwf : G.WF) (f : Nat) (hf : f < G.numFaces) :
+    G.fnodes f ≠ [] ∧ ∀ v ∈ G.fnodes f, v < G.numNodes :=
+  hwf.2.1 _ (C11.getD_mem' G.faceNodes f [] hf)
+
+theorem cell_mem (v f c : Nat) (s : Rat) (hc : c < G.numCells) (hf : f ∈ G.facesOf v)
+    (hm : (c, s) ∈ G.fcells f) : c ∈ G.cellsOf v :=
+  (G.mem_cellsOf v c).mpr ⟨hc, f, hf, s, hm⟩
+
+/-- the rows the model builds refer to sub-cells of the region -/
+theorem region_rowsOK (hwf : G.WF) (bc : Nat → Vec 2) (v : Nat) : RowsOK (G.region bc v) := by
+  intro r hr
+  simp only [region, List.mem_flatMap] at hr
+  obtain ⟨f, hf, hr⟩ := hr
+  have hfl := ((G.mem_facesOf v f).mp hf).1
+  show r.idxOK (G.cellsOf v).length
+  rcases G.fcells_cases hwf f hfl with ⟨c, s, hl, hc, _⟩ | ⟨c1, s1, c2, s2, hl, hc1, hc2⟩
+  · have hmem := G.cell_mem v f c s hc hf (by rw [hl]; simp)
+    unfold mkRows at hr
+    rw [hl] at hr
+    by_cases hd : G.dirAt f = true
+    · simp only [hd, if_true, List.mem_singleton] at hr
+      subst hr; exact G.loc_lt v c hmem
+    · simp only [hd, Bool.false_eq_true, if_false, List.mem_singleton] at hr
+      subst hr; exact G.loc_lt v c hmem
+  · have hm1 := G.cell_mem v f c1 s1 hc1 hf (by rw [hl]; simp)
+    have hm2 := G.cell_mem v f c2 s2 hc2 hf (by rw [hl]; simp)
+    unfold mkRows at hr
+    rw [hl] at hr
+    simp only [List.mem_cons, List.not_mem_nil, or_false] at hr
+    rcases hr with rfl | rfl
+    · exact ⟨G.loc_lt v c1 hm1, G.loc_lt v c2 hm2⟩
+    · exact ⟨G.loc_lt v c1 hm1, G.loc_lt v c2 hm2⟩
+
+/-- the local matrix does not depend on the data -/
+theorem coefs_region (bc : Nat → Vec 2) (v : Nat) (a : Fin 2) (r : Row 2) :
+    Row.coefs (G.region bc v) a r = Row.coefs (G.region zeroData v) a r := by
+  cases r <;> rfl
+
+theorem mkRows_matrix (bc : Nat → Vec 2) (v f : Nat) (R : Region 2) :
+    (G.mkRows bc v f).flatMap (fun r => [flatB (r.coefs R 0) R.m, flatB (r.coefs R 1) R.m])
+      = (G.mkRows zeroData v f).flatMap (fun r => [flatB (r.coefs R 0) R.m, flatB (r.coefs R 1) R.m]) := by
+  unfold mkRows
+  split
+  · split <;> rfl
+  · rfl
+  · rfl
+
+theorem matrix_region (bc : Nat → Vec 2) (v : Nat) :
+    (G.region bc v).matrix2 = (G.region zeroData v).matrix2 := by
+  unfold Region.matrix2
+  have e : ∀ r : Row 2, [flatB (r.coefs (G.region bc v) 0) (G.region bc v).m,
+      flatB (r.coefs (G.region bc v) 1) (G.region bc v).m]
+      = [flatB (r.coefs (G.region zeroData v) 0) (G.region zeroData v).m,
+         flatB (r.coefs (G.region zeroData v) 1) (G.region zeroData v).m] := by
+    intro r
+    rw [G.coefs_region bc v 0 r, G.coefs_region bc v 1 r]; rfl
+  simp only [e]
+  show ((G.facesOf v).flatMap (G.mkRows bc v)).flatMap _ = ((G.facesOf v).flatMap (G.mkRows zeroData v)).flatMap _
+  rw [List.flatMap_assoc, List.flatMap_assoc]
+  congr 1
+  funext f
+  exact G.mkRows_matrix bc v f (G.region zeroData v)
+
+/-- every certificate of `certs` passes the check for the region WITH data -/
+theorem certs_ok (Ls : List C11.Mat) (h : G.certs = some Ls) (bc : Nat → Vec 2) (v : Nat)
+    (hv : v < G.numNodes) : certOK2 (G.region bc v) (Ls.getD v []) = true := by
+  unfold certs at h
+  have h1 := C11.Grid2.allSome_getD _ Ls h v (by simpa using hv) []
+  rw [C11.getD_map_range G.certAt G.numNodes v none hv] at h1
+  unfold certAt at h1
+  have hm : certOK2 (G.region bc v) (Ls.getD v []) = certOK2 (G.region zeroData v) (Ls.getD v []) := by
+    unfold certOK2; rw [G.matrix_region bc v]; rfl
+  rw [hm]
+  cases hL : C11.leftInverse (G.region zeroData v).matrix2 with
+  | none => simp only [hL] at h1; simp at h1
+  | some L =>
+    simp only [hL] at h1
+    by_cases hc : certOK2 (G.region zeroData v) L = true
+    · simp only [hc, if_true, Option.some.injEq] at h1
+      rw [← h1]; exact hc
+    · simp [hc] at h1
+
+/-- affine data of the grid are affine data of every region without eliminated rows -/
+theorem region_linear (hwf : G.WF) (A : Mat 2) (b : Vec 2) (v : Nat) (hel : G.elimAt v = false) :
+    LinearData (G.region (G.affineBc A b) v) A b := by
+  intro r hr
+  simp only [region, List.mem_flatMap] at hr
+  obtain ⟨f, hf, hr⟩ := hr
+  have hfl := ((G.mem_facesOf v f).mp hf).1
+  have hnn : G.nN f ≠ 0 := by
+    have := (G.fnodes_ok hwf f hfl).1
+    unfold nN
+    intro h0
+    have : (G.fnodes f).length = 0 := by exact_mod_cast h0
+    exact (G.fnodes_ok hwf f hfl).1 (List.length_eq_zero_iff.mp this)
+  rcases G.fcells_cases hwf f hfl with ⟨c, s, hl, _, hs⟩ | ⟨c1, s1, c2, s2, hl, _, _⟩
+  · unfold mkRows at hr
+    rw [hl] at hr
+    by_cases hd : G.dirAt f = true
+    · simp only [hd, if_true, List.mem_singleton] at hr
+      subst hr
+      intro a
+      simp [affineBc, hl, hd]
+    · simp only [hd, Bool.false_eq_true, if_false, List.mem_singleton] at hr
+      subst hr
+      refine ⟨fun a => ?_, fun h => by rw [hel] at h; cases h⟩
+      have hb : G.affineBc A b f = fun a => s * mulVec (hooke G.lam G.mu A) (G.fnAt f) a := by
+        simp [affineBc, hl, hd]
+      show s * G.affineBc A b f a / G.nN f = mulVec (hooke G.lam G.mu A) (G.subNormal f) a
+      rw [hb]
+      unfold subNormal
+      rw [mulVec_scale]
+      field_simp
+      linear_combination (mulVec (hooke G.lam G.mu A) (G.fnAt f) a) * hs
+  · unfold mkRows at hr
+    rw [hl] at hr
+    simp only [List.mem_cons, List.not_mem_nil, or_false] at hr
+    rcases hr with rfl | rfl <;> trivial
+
+theorem firstCell_mem (hwf : G.WF) (v f : Nat) (hf : f ∈ G.facesOf v) :
+    G.firstCell f ∈ G.cellsOf v := by
+  have hfl := ((G.mem_facesOf v f).mp hf).1
+  rcases G.fcells_cases hwf f hfl with ⟨c, s, hl, hc, _⟩ | ⟨c1, s1, c2, s2, hl, hc1, _⟩
+  · have : G.firstCell f = c := by simp [firstCell, hl]
+    rw [this]; exact G.cell_mem v f c s hc hf (by rw [hl]; simp)
+  · have : G.firstCell f = c1 := by simp [firstCell, hl]
+    rw [this]; exact G.cell_mem v f c1 s1 hc1 hf (by rw [hl]; simp)
+
+theorem solOf_tab (n : Nat) (d : Nat → NodeSol) : solOf ((List.range n).map d) d = d := by
+  funext v
+  unfold solOf
+  by_cases hv : v < n
+  · simp [hv]
+  · simp [hv]
+
+end GridS
 
 end PorepyVerif.C13
